@@ -350,8 +350,19 @@ def run(rep):
                        "skip/max_read as exact rationals p/(4*rate)"]
     rep.outside = ["pydub formats", "microphone input", "numpy export beyond 3 samples per channel"]
 
-    def go(hn, fn, ideal=False, workers=4):
+    def go(hn, fn, ideal=False, workers=4, probe=None):
         ex = explore(fn, workers=workers)
+        if probe is not None:
+            for r in ex.results:
+                if r["status"] == "unsupported":
+                    # the code left the modelled fragment (e.g. it looks at individual bytes): a concrete instance of this
+                    # configuration is replayed on the real code so that an outright wrong round trip is still reported
+                    # (a replayed fact; it adds nothing to the solver claim, which stays INCONCLUSIVE for this harness)
+                    rep.notes.append("%s left the modelled fragment (%s); probed concretely" % (hn, r.get("why")))
+                    r["status"] = "cex"
+                    r["failing"] = ["unsupported by the byte model: %s" % r.get("why")]
+                    r["cex"] = dict(probe)
+                    rep.inconclusive.append("%s: the code left the modelled fragment (%s): not covered by the claim; concrete probe only" % (hn, r.get("why")))
         rep.add_exploration(hn, ex)
         tok.handle_cex(rep, hn, ex, replay_fn, ideal=ideal)
     for i, (sw, ch) in enumerate(fm):
@@ -359,7 +370,8 @@ def run(rep):
             for lazy in (False, True):
                 for via in (("save", "to_file", "save-path") if (i == 0 and name in ("out.wav", "out.raw")) else ("save",)):
                     go("roundtrip[sw=%d,ch=%d,%s,%s,%s,%s]" % (sw, ch, name, fmt, "lazy" if lazy else "eager", via),
-                       roundtrip_harness(L, sw, ch, 10, name, fmt, cont, lazy, via), workers=1)
+                       roundtrip_harness(L, sw, ch, 10, name, fmt, cont, lazy, via), workers=1,
+                       probe=dict(kind="roundtrip", name=name, fmt=fmt, container=cont, lazy=lazy, via=via, sw=sw, ch=ch, sr=10, n=5))
     go("names", name_harness(L), workers=1)
     for i, (sw, ch) in enumerate(fm):
         for inp in ("bytes", "raw", "wav"):
